@@ -2,6 +2,7 @@
    limit conditions: C10/Gen.v (regenerated from the source on every run). *)
 From Coq Require Import ZArith.
 From Wz Require Import lib.Bytes C01.Gen C01.Model C01.Proofs C10.Gen C10.Model C10.Proofs.
+From Wz Require C09.Base C09.Gen C09.Model C10.Declared.
 Open Scope N_scope.
 
 (* in every configuration a run can reach, the buffer holds at most max_form_memory_size bytes *)
@@ -66,3 +67,57 @@ Theorem C10_urlencoded_pure_guard : forall mm clen data sched body,
   read_urlencoded mm clen data sched = UOk body -> read_urlencoded None None data sched = UOk body.
 Proof. exact url_pure_guard. Qed.
 Print Assumptions C10_urlencoded_pure_guard.
+
+(* ---- the max_content_length clause, as corollaries of the C09 development: get_input_stream_gen is the
+   decision table regenerated from wsgi.get_input_stream, run / readall the LimitedStream model *)
+Section MaxContentLength.
+Import C09.Base C09.Gen C09.Model.
+
+(* a declared length above the maximum is refused before a byte is read *)
+Theorem C10_declared_length_rejected : forall r n m,
+  wsgi_get_content_length_gen r = Val (Some n) -> e_mcl r = Some m -> (n > m)%Z ->
+  get_input_stream_gen r = ChRaise RequestEntityTooLarge.
+Proof. exact C10.Declared.declared_rejected. Qed.
+Print Assumptions C10_declared_length_rejected.
+
+(* a declared length within the maximum is a pure guard: the stream is the one built without a smaller
+   limit (the declared length, or the maximum on a server-terminated input) *)
+Theorem C10_declared_length_accepted : forall r n m,
+  wsgi_get_content_length_gen r = Val (Some n) -> e_mcl r = Some m -> (n <= m)%Z ->
+  get_input_stream_gen r = if term_truthy r then ChLimited m true else ChLimited n false.
+Proof. exact C10.Declared.declared_accepted. Qed.
+Print Assumptions C10_declared_length_accepted.
+
+(* with a maximum configured: no stream with a larger limit, no exception but RequestEntityTooLarge *)
+Theorem C10_never_beyond_max : forall r m,
+  e_mcl r = Some m ->
+  (forall e, get_input_stream_gen r = ChRaise e -> e = RequestEntityTooLarge) /\
+  (forall l k, get_input_stream_gen r = ChLimited l k -> (l <= m)%Z).
+Proof. exact C10.Declared.never_beyond_max. Qed.
+Print Assumptions C10_never_beyond_max.
+
+(* server-terminated stream without a usable length: capped at the maximum; under every operation
+   sequence and read schedule at most m bytes are consumed and only the client's bytes are yielded;
+   reading a body of m bytes or more to the end raises RequestEntityTooLarge *)
+Theorem C10_terminated_stream_bounded : forall r m D sched ri ops,
+  wsgi_get_content_length_gen r = Val None -> e_mcl r = Some m -> term_truthy r = true ->
+  get_input_stream_gen r = ChLimited m true /\
+  (match run (ls_init (Z.to_N m) true) (und_init D sched ri) ops with
+   | (l, s, u) => u_taken u ++ u_data u = D /\ (lenN (u_taken u) <= Z.to_N m)%N /\
+                  trace_ok D (Z.to_N m) 0 l
+   end) /\
+  (benign sched = true -> (Z.to_N m <= lenN D)%N ->
+   fst (fst (readall (ls_init (Z.to_N m) true) (und_init D sched ri))) = Exn RequestEntityTooLarge).
+Proof. exact C10.Declared.terminated_stream_bounded. Qed.
+Print Assumptions C10_terminated_stream_bounded.
+
+Example C10_max_content_length_example :
+  get_input_stream_gen {| e_cl := Some [53; 48]; e_te := None; e_term := None; e_mcl := Some 49%Z; e_safe := true |}
+    = ChRaise RequestEntityTooLarge
+  /\ get_input_stream_gen {| e_cl := Some [53; 48]; e_te := None; e_term := None; e_mcl := Some 50%Z; e_safe := true |}
+    = ChLimited 50 false
+  /\ get_input_stream_gen {| e_cl := None; e_te := None; e_term := Some true; e_mcl := Some 50%Z; e_safe := true |}
+    = ChLimited 50 true.
+Proof. vm_compute. repeat split. Qed.
+Print Assumptions C10_max_content_length_example.
+End MaxContentLength.
